@@ -478,14 +478,41 @@ func (m *Machine) intrinsic(caller *frame, fn *ssa.Function, fi *funcInfo, args 
 		m.Stats.Intrinsics[name] = true
 		s, sub := strPieces(args[0]), strPieces(args[1])
 		idx := int64(-1)
+		sawOpaque := false
 		for i := 0; i+len(sub) <= len(s); i++ {
-			if m.condBool(m.strEq(mkStr(s[i:i+len(sub):i+len(sub)]), mkStr(sub))) {
+			if _, ok := s[i].(*Opaque); ok {
+				sawOpaque = true
+				continue
+			}
+			win := s[i : i+len(sub) : i+len(sub)]
+			clean := true
+			for _, b := range win {
+				if _, ok := b.(*Opaque); ok {
+					clean = false
+					break
+				}
+			}
+			if !clean {
+				continue
+			}
+			if m.condBool(m.strEq(mkStr(win), mkStr(sub))) {
 				idx = int64(i)
 				break
 			}
 		}
+		for _, b := range s {
+			if _, ok := b.(*Opaque); ok {
+				sawOpaque = true
+			}
+		}
 		if name == "strings.Contains" {
+			if idx < 0 && sawOpaque {
+				m.unsupported("strings.Contains: not found in the known parts of a string with opaque content")
+			}
 			return idx >= 0, true
+		}
+		if sawOpaque {
+			m.unsupported("strings.Index on a string with opaque content")
 		}
 		return idx, true
 	case "strings.IndexByte":
